@@ -11,7 +11,8 @@ fn mutate(rng: &mut Rng, wasm: &[u8]) -> (Vec<u8>, &'static str) {
     if w.len() < 10 {
         return (w, "none");
     }
-    match rng.below(12) {
+    match rng.below(13) {
+        12 => start_edit(rng, &w),
         9 | 10 => body_edit(rng, &w),
         11 => custom_count(rng, &w),
         0 => {
@@ -92,6 +93,33 @@ fn mutate(rng: &mut Rng, wasm: &[u8]) -> (Vec<u8>, &'static str) {
             (w, "unknown-section")
         }
     }
+}
+
+/// the start section is rewritten to name another function (or one is inserted where the format
+/// wants it): the index stays small, so it is mostly in range, and the function it names mostly
+/// does not have the type `[] -> []` a start function must have - validity is wasmparser's verdict
+fn start_edit(rng: &mut Rng, w: &[u8]) -> (Vec<u8>, &'static str) {
+    let secs = section_spans(w);
+    let idx = rng.below(6) as u8;
+    let mut out = w[..8.min(w.len())].to_vec();
+    let mut done = false;
+    for s in &secs {
+        let id = w[s.0];
+        if !done && id == 8 {
+            out.extend_from_slice(&[8, 1, idx]);
+            done = true;
+            continue;
+        }
+        if !done && matches!(id, 9 | 10 | 11 | 12) {
+            out.extend_from_slice(&[8, 1, idx]);
+            done = true;
+        }
+        out.extend_from_slice(&w[s.0..s.1]);
+    }
+    if !done {
+        out.extend_from_slice(&[8, 1, idx]);
+    }
+    (out, "start-edit")
 }
 
 /// a `producers` or `name` custom section whose declared element count is far larger than what
